@@ -250,3 +250,17 @@ Proof.
   destruct (step_string key enc t3 (ad_targettype a) [] U3 R3 Vtg) as (t4 & G4 & _ & _). rewrite G4.
   rewrite (type_ok_check _ Htg). exists t4. reflexivity.
 Qed.
+
+(* a string starting with the NULL-string marker byte does not survive length-prefixed mode *)
+Lemma binnull_refuted :
+  exists (c : config) (a : ad),
+    opt_no_types (c_opts c) = false /\ nul_free (ad_mytype a) /\ ad_mytype a <> [] /\
+    exists t1 es my tg,
+      get_ad_raw (treader_of true true (s_frames (s_finish (put_ad c (sstate_init true true) a)))) = (t1, MOk (es, my, tg))
+      /\ my <> ad_mytype a.
+Proof.
+  exists {| c_opts := 0; c_whitelist := []; c_enc_attrs := []; c_peer := None |}.
+  exists {| ad_attrs := [([x4e], [x31])]; ad_mytype := [xad; x66]; ad_targettype := [] |}.
+  split; [reflexivity|]. split; [repeat constructor; discriminate|]. split; [discriminate|].
+  eexists. eexists. eexists. eexists. split; [vm_compute; reflexivity|]. discriminate.
+Qed.
